@@ -1,6 +1,8 @@
 import PqV.Drv.Nested
+import PqV.Drv.File
 import PqV.Spec.File
 import PqV.Impl.WritePage
+import PqV.Impl.ReadPage
 /- Drv.WPage — `wpage.*` stream: the writer model's pages for one flat column chunk. -/
 namespace PqV.Drv
 open PqV.Spec PqV.Impl
@@ -60,6 +62,16 @@ def handleWPage (op : String) (a : Args) : String :=
       ++ s!" metaok={if (encodingsProblem (writerEncodings c) (some (writerEncStats c pages.length)) (out.map fun (p, _) => (p.ptypeTag, p.encoding))).isNone then 1 else 0}"
       ++ " pages=" ++ showList (out.map fun (p, body) =>
       s!"[{p.ptypeTag},{p.numValues},{p.encoding},{optN p.numNulls},{optN p.numRows},{p.defLen},{toHex body}]")
+  | "read" =>
+    -- the model of core.read_data_page on one v1 page body
+    match readDataPage (a.nat "required" != 0) (a.nat "maxdef") (a.nat "ptype") (a.nat "tl") (a.nat "enc") (a.nat "n")
+        (a.nat "skip" != 0) (a.nat "selfmade" != 0) (a.bytes "body") with
+    | none => "err fault"
+    | some (defs, vals) =>
+      let d := match defs with | none => "-1" | some l => showNats l
+      match vals with
+      | .plain vs => s!"ok defs={d} kind=plain vals={showList (vs.map showCell)}"
+      | .indices ix => s!"ok defs={d} kind=indices vals={showInts ix}"
   | "pagemap" =>
     match pageMap (a.bytes "bytes").toArray with
     | .ok ps => "ok chunks=" ++ (match chunkEncMeta (a.bytes "bytes").toArray with | .ok l => showList l | .error _ => "[]") ++ " pages=" ++ showList (ps.map fun (ri, ci, p, codec) =>
